@@ -483,6 +483,41 @@ pub fn run(ctx: &RunCtx) -> i32 {
         }
     });
     total.note(format!("corpus: {} operations captured from aws-sdk-s3", corpus.len()));
+    // overlap leg (DESIGN 9.2): requests of all classes in flight together on one service - each must be shown, refused,
+    // attributed and served exactly as when it has the service to itself
+    let n_over = ctx.tier.sz(500, 12_000);
+    let over = par_run(ctx.workers, n_over, |j, r| {
+        let rt = new_runtime();
+        let mut g = Rng::new(derive_seed(ctx.seed, "C07-overlap", j));
+        let prt = if j % 4 == 3 { Some(new_parallel_runtime(4)) } else { None };
+        let hook = *g.pick(HOOKS);
+        let route = g.chance(1, 2);
+        let k = 2 + g.usize_below(6);
+        let mut kinds = Vec::new();
+        let mut reqs = Vec::new();
+        let mut first_op = String::new();
+        for _ in 0..k {
+            let (op, base) = g.pick(corpus_ref);
+            if first_op.is_empty() {
+                first_op = op.clone();
+            }
+            let class = *g.pick(CLASSES);
+            let mut req = make(class, base);
+            let marked = route && g.chance(1, 2);
+            if marked {
+                req.headers.push(("x-verif-route".into(), b"1".to_vec()));
+            }
+            if !req.body.is_empty() && g.chance(1, 2) {
+                let n = req.body.len();
+                req.framing = Some(Framing { cuts: vec![g.usize_below(n + 1)], pendings: vec![g.below(3) as u8, g.below(3) as u8], pending_at_end: g.below(2) as u8, immediate_wake: g.chance(1, 2), error_at: None, stall_at: None });
+            }
+            kinds.push(format!("{class}/{}", if marked { "route" } else { "s3" }));
+            reqs.push(req);
+        }
+        let case = Case { op: first_op, class: String::new(), hook: hook.into(), route: if route { "non-matching" } else { "none" }.into(), host: false, auth: true, req: reqs[0].clone() };
+        judge_overlap(r, "C07", &rt, prt.as_ref(), &svc_cfg(&case), &kinds, &reqs, g.u64());
+    });
+    total.merge(over);
     // POST forms (PostObject is not in the smithy model)
     let secrets = keys();
     let mut g = Rng::new(ctx.seed);
@@ -513,6 +548,9 @@ pub fn run(ctx: &RunCtx) -> i32 {
 
 pub fn replay(v: &Value) -> i32 {
     let w = &v["witness"];
+    if w["kind"] == "overlap" {
+        return super::replay_verdict("C07", &replay_overlap("C07", w));
+    }
     let mut r = Report::new();
     let rt = new_runtime();
     let case: Case = serde_json::from_value(w["case"].clone()).unwrap_or_else(|e| harness_error(&format!("bad case: {e}")));
